@@ -67,7 +67,7 @@ def run(chk):
             v, nt = lab.prove(name, (L & ~R) == 0, extra_pre=[sub], twin=(R & ~L) == 0)
             full = f'{name} [n={n} c={c}]'
             if v.status == 'unsat': chk.obligation(full, 'E-MIR/merge', 'holds', v.seconds, nt, {'law': ['a <= a2 implies', S.show(fl), '<=', S.show(fr)], 'n': n, 'verdict': 'unsat'})
-            elif v.status == 'unknown': chk.obligation(full, 'E-MIR/merge', 'inconclusive', v.seconds)
+            elif v.status == 'unknown': chk.obligation(full, 'E-MIR/merge', 'timeout', v.seconds)
             else:
                 w = KL.RP.kernel_witness(lab, v.model, L & ~R) or KL.first_witness(lab, v.model)
                 res = KL.native_law(n, w['T'], w['sets'], ('sub', fl, fr)); chk.native_replays += 1
@@ -117,7 +117,7 @@ def e_uni(chk, thorough):
             v = uni.decide([dec.unit, z3.Not(dec.bdd(r['ok']))]); chk.queries += 1
             if v.status == 'unsat': chk.obligation(name, 'E-UNI', 'holds', v.seconds, True, {'formula': S.show(f), 'instance': inst.name, 'query': 'exists colour,state: unit & not result', 'verdict': 'unsat'})
             elif v.status == 'sat': UC.confirm(chk, 'C11', sess, f, r['ok'], v.model, name, 'law')
-            else: chk.obligation(name, 'E-UNI', 'inconclusive', v.seconds)
+            else: chk.obligation(name, 'E-UNI', 'timeout', v.seconds)
         # library procedures
         from .. import front
         job = dict(sess.job); job['runs'] = []; job['libops'] = [{'op': 'reach_backward', 'a': {'t': 'ref', 'name': 'w'}}, {'op': 'trap_forward', 'a': {'t': 'ref', 'name': 'w'}}] + \
@@ -136,4 +136,4 @@ def e_uni(chk, thorough):
                 if a1 != a2:
                     chk.obligation(full, 'E-UNI', 'violated'); chk.violation(full, 'library-reachability', {'instance': inst.name, 'aeon': inst.aeon, 'colour': colour, 'state': state, 'tool': a1, 'library': a2}, f'{name}: differ at state {state} of the witness colour')
                 else: chk.obligation(full + ' (does not reproduce)', 'E-UNI', 'inconclusive')
-            else: chk.obligation(full, 'E-UNI', 'inconclusive', v.seconds)
+            else: chk.obligation(full, 'E-UNI', 'timeout', v.seconds)
